@@ -180,6 +180,13 @@ def check_config(c):
             ni, phi_ = teneva.norm(Mi, use_stab=True)
             q = ratio(ni * ni, int(2 * phi_), N, 0)
             res.check(q is not None and abs(q - 1) <= 2 * tol, 'norm.int_cores', case, lambda: 'integer-typed cores: norm ratio %r' % q, tags + ['value'])
+            # accuracy with a narrower-typed FIRST operand and a non-integer factor on an interior core of the second
+            Yf = [G.astype(float) for G in M]
+            Yf[d // 2] = Yf[d // 2] * 1.1
+            for nm, Y1 in (('int64', Mi), ('float32', [G.astype(np.float32) for G in M])):
+                an = teneva.accuracy(Y1, Yf)
+                res.check(abs(an - (0.1 / 1.1)) <= 1e-9 * (1 + d / 100), 'accuracy.mixed_dtype', dict(case, first=nm),
+                          lambda: 'accuracy(%s-typed Y, 1.1 Y) = %r, exact 1/11' % (nm, an), tags + ['value'])
         # ---- plain vs stabilised when the plain result is representable -------------------------------
         # plain computation representable: the final value AND every partial product of the left-to-right chain
         pref = np.cumsum([2 * x for x in s])
@@ -324,7 +331,7 @@ def strata(tier, seed):
     Es = [-30000, -1100, -1000, -300, 0, 300, 1000, 1100, 30000]
     cs = []
     for d in ds:
-        for r in ((1, 2, 3) if d <= 100 else (1, 2)):
+        for r in ((1, 2, 3, 4) if d <= 10 else (1, 2, 3) if d <= 100 else (1, 2)):       # r = 4 = n^2: square / tall unfoldings in right-to-left sweeps
             for E in Es:
                 for dist in ('even', 'first', 'last', 'alt', 'vee'):
                     for pat in (('pos', 'signed') if d <= 10 else ('pos',)):
